@@ -5,7 +5,8 @@
    Transaction.Commit, for the sets of created and updated table files (Go map order; the lists
    below carry that order):
      phase 1  for each created table : Truncate(0) on the table's own (locked, still empty) file,
-              EncodeView into it, write the export line break
+              EncodeView into it, write the line break that ends the file ([ttail]: the session's
+              --line-break for a created table, the file's own for an updated one; /repo ec68d2d)
      phase 2  for each updated table : the same into the temp file ._NAME.temp
      phase 3  for each created table (same order): FileContainer.Commit -> Handler.commit:
               close fp; (openType = ForCreate) no temp file; lockFile.Close = close + remove
@@ -19,14 +20,17 @@
    trace which of the two the current tree implements. *)
 Require Import Csvq.Model.Base Csvq.Model.Fs.
 
-Record tchange := mkT { tid : N; tbody : content }.   (* new contents, without the final line break *)
+(* new contents of a table: the encoded records, and the line break COMMIT appends after them -- the
+   file's own line break for an updated table, the session's --line-break for a created one, nothing
+   with --strip-ending-line-break *)
+Record tchange := mkT { tid : N; tbody : content; ttail : content }.
 
 (* a write system call is only issued for a non-empty buffer *)
 Definition wr (p : path) (d : content) : list op := match d with [] => [] | _ => [OWrite p d] end.
 Definition encode_ops (p : path) (body lb : content) : list op := OTrunc p :: wr p body ++ wr p lb.
 
-Definition write_created (lb : content) (c : tchange) := encode_ops (data (tid c)) (tbody c) lb.
-Definition write_updated (lb : content) (c : tchange) := encode_ops (tempp (tid c)) (tbody c) lb.
+Definition write_created (c : tchange) := encode_ops (data (tid c)) (tbody c) (ttail c).
+Definition write_updated (c : tchange) := encode_ops (tempp (tid c)) (tbody c) (ttail c).
 Definition release_lock (t : N) : list op := [OClose (lockp t); ORemove (lockp t)].
 Definition commit_created (c : tchange) : list op := OClose (data (tid c)) :: release_lock (tid c).
 Definition swap_ops (rename_over : bool) (t : N) : list op :=
@@ -37,8 +41,8 @@ Definition commit_updated (rename_over : bool) (c : tchange) : list op :=
 Definition release_idle (t : N) : list op :=
   [OClose (data t); OClose (tempp t); ORemove (tempp t)] ++ release_lock t.
 
-Definition commit_ops (rename_over : bool) (lb : content) (cr up : list tchange) (idle : list N) : list op :=
-  flat_map (write_created lb) cr ++ flat_map (write_updated lb) up
+Definition commit_ops (rename_over : bool) (cr up : list tchange) (idle : list N) : list op :=
+  flat_map write_created cr ++ flat_map write_updated up
   ++ flat_map commit_created cr ++ flat_map (commit_updated rename_over) up
   ++ flat_map release_idle idle.
 
@@ -46,7 +50,7 @@ Definition commit_ops (rename_over : bool) (lb : content) (cr up : list tchange)
 Definition acquire_update (t : N) : list op := [OCreate (lockp t); OCreate (tempp t)].
 Definition acquire_create (t : N) : list op := [OCreate (lockp t); OCreate (data t)].
 
-Definition new_content (lb : content) (c : tchange) : content := tbody c ++ lb.
+Definition new_content (c : tchange) : content := tbody c ++ ttail c.
 
 (* ---- the state COMMIT starts from ---------------------------------------------------------
    every updated / idle table exists and is held (lock and temp file present), every created
@@ -65,31 +69,31 @@ Definition commit_ready (s : fs) (cr up : list tchange) (idle : list N) : bool :
    Every table file of [s0] that the transaction did not create itself must still be there with
    its complete previous or its complete new contents; tables the transaction does not write must
    be exactly as before. *)
-Definition table_old_or_new (lb : content) (up : list tchange) (s0 s : fs) (t : N) : bool :=
+Definition table_old_or_new (up : list tchange) (s0 s : fs) (t : N) : bool :=
   match lookup s0 (data t) with
   | None => true
   | Some old =>
       match lookup s (data t) with
       | None => false
       | Some c => content_eqb c old
-                  || existsb (fun u => N.eqb (tid u) t && content_eqb c (new_content lb u)) up
+                  || existsb (fun u => N.eqb (tid u) t && content_eqb c (new_content u)) up
       end
   end.
-Definition old_or_new (lb : content) (cr up : list tchange) (s0 s : fs) : bool :=
+Definition old_or_new (cr up : list tchange) (s0 s : fs) : bool :=
   forallb (fun e => negb (is_data (fst e)) || mem (snd (fst e)) (map tid cr)
-                    || table_old_or_new lb up s0 s (snd (fst e))) s0.
+                    || table_old_or_new up s0 s (snd (fst e))) s0.
 
 (* the weaker statement that does hold for remove-then-rename: a table may be missing, but then
    its complete new contents are in the temp file *)
-Definition table_old_new_or_temp (lb : content) (up : list tchange) (s0 s : fs) (t : N) : bool :=
-  table_old_or_new lb up s0 s t
+Definition table_old_new_or_temp (up : list tchange) (s0 s : fs) (t : N) : bool :=
+  table_old_or_new up s0 s t
   || match lookup s (data t), lookup s (tempp t) with
-     | None, Some c => existsb (fun u => N.eqb (tid u) t && content_eqb c (new_content lb u)) up
+     | None, Some c => existsb (fun u => N.eqb (tid u) t && content_eqb c (new_content u)) up
      | _, _ => false
      end.
-Definition old_new_or_temp (lb : content) (cr up : list tchange) (s0 s : fs) : bool :=
+Definition old_new_or_temp (cr up : list tchange) (s0 s : fs) : bool :=
   forallb (fun e => negb (is_data (fst e)) || mem (snd (fst e)) (map tid cr)
-                    || table_old_new_or_temp lb up s0 s (snd (fst e))) s0.
+                    || table_old_new_or_temp up s0 s (snd (fst e))) s0.
 
 (* "delete the hidden control files, as the manual instructs" *)
 Definition delete_control_files (s : fs) : fs := filter (fun e => is_data (fst e)) s.
